@@ -92,15 +92,24 @@ def num(x):
 
 class StatsPart:
     name = "stats"
-    budget = {"quick": 3200, "thorough": 64000}
+    budget = {"quick": 8000, "thorough": 120000}
 
     def strategy(self, tier):
         @st.composite
         def case(draw):
             enc = draw(st.sampled_from(["PS", "PS", "HP", "none"]))
             ploidy = draw(st.sampled_from([2, 2, 2, 3, 4]))
-            model, truth = vm.gen_vcf(draw, nrecords=(1, 14), ploidy_choices=(ploidy,), phasing=(enc,), no_alt=True,
-                                      hom_phased=True, stale_ps=(enc == "PS"), interleave=draw(st.booleans()))
+            if draw(st.booleans()):
+                # phase-heavy profile: mostly heterozygous phased calls spread over a few interleaved sets
+                clean = draw(st.booleans())
+                model, truth = vm.gen_vcf(draw, nrecords=(4, 20), ncontigs=(1, 2), nsamples=(1, 2), ploidy_choices=(ploidy,),
+                                          phasing=(enc,), no_alt=not clean, multiallelic=not clean, duplicates=not clean,
+                                          hom_phased=True, stale_ps=(enc == "PS"), interleave=True,
+                                          modes=("het", "het", "het", "het", "het", "het", "hom", "partial", "missing"),
+                                          phase_odds=8, new_set_odds=draw(st.sampled_from([1, 2, 3])), extra_fields=False)
+            else:
+                model, truth = vm.gen_vcf(draw, nrecords=(1, 14), ploidy_choices=(ploidy,), phasing=(enc,), no_alt=True,
+                                          hom_phased=True, stale_ps=(enc == "PS"), interleave=draw(st.booleans()))
             opts = {"sample": draw(st.sampled_from([None] + model["samples"])),
                     "only_snvs": draw(st.integers(0, 3)) == 0,
                     "chromosomes": draw(st.sampled_from([None, None, ["chr1"], ["chr2"], ["chr1,chr2"], ["chr2", "chr1"]])),
